@@ -40,6 +40,11 @@ class LibFn:
         self.name = name
 
 
+class PartialFn:
+    def __init__(self, fn, args):
+        self.fn, self.args = fn, args
+
+
 TYPE_ORDER = None
 
 
@@ -62,7 +67,7 @@ def type_name(v):
         return 'object'
     if isinstance(v, list):
         return 'array'
-    if isinstance(v, (RefFn, LibFn)) or callable(v):
+    if isinstance(v, (RefFn, LibFn, PartialFn)) or callable(v):
         return 'function'
     return 'regex'
 
@@ -274,10 +279,18 @@ class Ref:
             if isinstance(b, str):
                 return to_text(a) + b
             if isinstance(a, datetime.datetime) and is_num(b) or isinstance(b, datetime.datetime) and is_num(a):
-                raise Unsupported('datetime arithmetic')
+                d, n = (a, b) if isinstance(a, datetime.datetime) else (b, a)
+                if isinstance(n, float) and (math.isnan(n) or math.isinf(n)):
+                    return None
+                try:
+                    return d + datetime.timedelta(milliseconds=n)     # a datetime offset by n milliseconds
+                except (OverflowError, ValueError):
+                    return None
             return None
         if op == '-' and isinstance(a, datetime.datetime) and isinstance(b, datetime.datetime):
-            raise Unsupported('datetime arithmetic')
+            us = (a - b) // datetime.timedelta(microseconds=1)
+            ms = us / 1000
+            return float(math.floor(ms + 0.5) if ms >= 0 else math.ceil(ms - 0.5))    # the difference in milliseconds
         if is_num(a) and is_num(b):
             return self.arith(op, a, b)
         return None
@@ -326,6 +339,10 @@ class Ref:
             return self.call_script(fn, vals)
         if isinstance(fn, LibFn):
             return self.lib(fn.name, vals)
+        if isinstance(fn, PartialFn):
+            return self.call_value(fn.fn, list(fn.args) + list(vals))
+        if callable(fn):
+            return fn(vals)         # a host function of the test (python callable taking the argument list)
         return None                 # calling a non-function evaluates to null
 
     def call_script(self, fn, vals):
@@ -414,6 +431,10 @@ class Ref:
             return type_name(a[0] if n else None) if n <= 1 else None
         if name == 'systemCompare':
             return compare(a[0] if n else None, a[1] if n > 1 else None) if n <= 2 else None
+        if name == 'systemPartial':
+            if n >= 2 and type_name(a[0]) == 'function':
+                return PartialFn(a[0], a[1:])
+            return None
         if name == 'arraySort':
             if n in (1, 2) and isinstance(a[0], list) and (n == 1 or a[1] is None or type_name(a[1]) == 'function'):
                 import functools
